@@ -8,14 +8,15 @@
     * the complete formulas `fn_78` (*SM2Point).Add and `fn_79` (*SM2Point).Double
   computes the hand-written models of SMGo/Model/Point.lean over an arbitrary `Model.Point.Ctx α`, MODULO the six
   straight-line Fiat primitives sm2Mul, sm2Square, sm2Add, sm2Sub, sm2Opp, sm2SetOne (hypothesis bundle
-  `FiatPrims`: each IR primitive, started on a 4-limb destination and encoded operands, returns the encoding of
-  the corresponding `FieldOps` operation; `enc_len`: encodings have four limbs).  Style of
+  `FiatPrims`: each IR primitive, started on an `Out4` destination (four limbs below 2^64) and encoded operands,
+  returns the encoding of the corresponding `FieldOps` operation; `enc_out4`: encodings are `Out4`; the fields are
+  the statements of SMGo/Proofs/CTIRRefineFiat.lean `ir_sm2*_eq_gen` up to `enc`).  Style of
   SMGo/Proofs/CTIRRefineField.lean (`Computes`, `Pre`).  Every result is stated for any program `P` that contains the
   generated functions (`HasPointFns P`, true for `prog`) as a `Computes` fact, and for `prog` as a run (`ir_*`).
 
   Encodings: element `elemV (enc e)`, point `ptV enc p = ptRawV (enc p.x) (enc p.y) (enc p.z)`
-  (`.arr [elemV …, elemV …, elemV …]`); the receiver of a method holds ANY element / point (`elemV o`, `o` of four
-  limbs where a Fiat primitive writes through it; `ptRawV qa qb qc`).
+  (`.arr [elemV …, elemV …, elemV …]`); the receiver of a method holds ANY element / point (`elemV o`, `Out4 o`
+  where a Fiat primitive writes through it; `ptRawV qa qb qc`).
 
   Fuel (F* = fuel of the Fiat primitive): wrappers `fuelW F = F + 6`; Set 4; SetRaw 6; GetRaw 2; NewSM2Point
   `fuelW Fone + 4`; NewFromXY `fuelW Fone + 20`; (*SM2Point).Set 26; Negate `fuelW Fopp + 22`; Select 173;
@@ -91,22 +92,29 @@ theorem prog_hasPointFns : HasPointFns prog :=
 
 /-- HYPOTHESES: the six straight-line Fiat primitives of the program compute the operations of the abstract
     `FieldOps` on the encodings.  The IR functions take the destination `out1` as first argument (the wrappers pass
-    the current limbs of the receiver: any 4-limb list) and return its final value. -/
+    the current limbs of the receiver: any four limbs below 2^64, `Out4`) and return its final value. -/
 structure FiatPrims {α : Type} (P : Prog) (G : Nat → Val) (X : Oracle) (F : Model.Field.FieldOps α) (enc : α → List Nat)
     (Fmul Fsq Fadd Fsub Fopp Fone : Nat) : Prop where
-  enc_len : ∀ e, (enc e).length = 4
-  mul : ∀ (o : List Nat) (a b : α), o.length = 4 →
+  enc_out4 : ∀ e, Out4 (enc e)
+  mul : ∀ (o : List Nat) (a b : α), Out4 o →
     Computes P G X f_fiat_sm2Mul Fmul [limbsV o, limbsV (enc a), limbsV (enc b)] [limbsV (enc (F.mul a b))]
-  square : ∀ (o : List Nat) (a : α), o.length = 4 →
+  square : ∀ (o : List Nat) (a : α), Out4 o →
     Computes P G X f_fiat_sm2Square Fsq [limbsV o, limbsV (enc a)] [limbsV (enc (F.square a))]
-  add : ∀ (o : List Nat) (a b : α), o.length = 4 →
+  add : ∀ (o : List Nat) (a b : α), Out4 o →
     Computes P G X f_fiat_sm2Add Fadd [limbsV o, limbsV (enc a), limbsV (enc b)] [limbsV (enc (F.add a b))]
-  sub : ∀ (o : List Nat) (a b : α), o.length = 4 →
+  sub : ∀ (o : List Nat) (a b : α), Out4 o →
     Computes P G X f_fiat_sm2Sub Fsub [limbsV o, limbsV (enc a), limbsV (enc b)] [limbsV (enc (F.sub a b))]
-  opp : ∀ (o : List Nat) (a : α), o.length = 4 →
+  opp : ∀ (o : List Nat) (a : α), Out4 o →
     Computes P G X f_fiat_sm2Opp Fopp [limbsV o, limbsV (enc a)] [limbsV (enc (F.opp a))]
-  one : ∀ (o : List Nat), o.length = 4 →
+  one : ∀ (o : List Nat), Out4 o →
     Computes P G X f_fiat_sm2SetOne Fone [limbsV o] [limbsV (enc F.setOne)]
+
+/-- four zero limbs (a fresh `new(fiat.SM2Element)`) -/
+theorem out4_zero : Out4 [0, 0, 0, 0] := ⟨0, 0, 0, 0, rfl, by decide, by decide, by decide, by decide⟩
+
+theorem FiatPrims.enc_len {α : Type} {P : Prog} {G : Nat → Val} {X : Oracle} {F : Model.Field.FieldOps α} {enc : α → List Nat}
+    {Fmul Fsq Fadd Fsub Fopp Fone : Nat} (h : FiatPrims P G X F enc Fmul Fsq Fadd Fsub Fopp Fone) (e : α) :
+    (enc e).length = 4 := (h.enc_out4 e).length
 
 
 /-! ## 1. The element wrappers
@@ -281,42 +289,42 @@ variable {α : Type} {P : Prog} {G : Nat → Val} {X : Oracle} {F : Model.Field.
 
 /-- **(*SM2Element).Mul** = `F.mul`; the receiver holds any four limbs -/
 theorem Mul_computes (hw : HasPointFns P) (hp : FiatPrims P G X F enc Fmul Fsq Fadd Fsub Fopp Fone)
-    (o : List Nat) (ho : o.length = 4) (a b : α) :
+    (o : List Nat) (ho : Out4 o) (a b : α) :
     Computes P G X f_fiat_SM2Element_Mul (fuelW Fmul) [elemV o, elemV (enc a), elemV (enc b)]
       [elemV (enc (F.mul a b)), elemV (enc (F.mul a b))] :=
   wrap3_computes (by rw [← fn_22_eq]; exact hw.h22) _ _ _ _ (hp.mul o a b ho)
 
 /-- **(*SM2Element).Add** = `F.add` -/
 theorem Add_computes (hw : HasPointFns P) (hp : FiatPrims P G X F enc Fmul Fsq Fadd Fsub Fopp Fone)
-    (o : List Nat) (ho : o.length = 4) (a b : α) :
+    (o : List Nat) (ho : Out4 o) (a b : α) :
     Computes P G X f_fiat_SM2Element_Add (fuelW Fadd) [elemV o, elemV (enc a), elemV (enc b)]
       [elemV (enc (F.add a b)), elemV (enc (F.add a b))] :=
   wrap3_computes (by rw [← fn_16_eq]; exact hw.h16) _ _ _ _ (hp.add o a b ho)
 
 /-- **(*SM2Element).Sub** = `F.sub` -/
 theorem Sub_computes (hw : HasPointFns P) (hp : FiatPrims P G X F enc Fmul Fsq Fadd Fsub Fopp Fone)
-    (o : List Nat) (ho : o.length = 4) (a b : α) :
+    (o : List Nat) (ho : Out4 o) (a b : α) :
     Computes P G X f_fiat_SM2Element_Sub (fuelW Fsub) [elemV o, elemV (enc a), elemV (enc b)]
       [elemV (enc (F.sub a b)), elemV (enc (F.sub a b))] :=
   wrap3_computes (by rw [← fn_18_eq]; exact hw.h18) _ _ _ _ (hp.sub o a b ho)
 
 /-- **(*SM2Element).Square** = `F.square` -/
 theorem Square_computes (hw : HasPointFns P) (hp : FiatPrims P G X F enc Fmul Fsq Fadd Fsub Fopp Fone)
-    (o : List Nat) (ho : o.length = 4) (a : α) :
+    (o : List Nat) (ho : Out4 o) (a : α) :
     Computes P G X f_fiat_SM2Element_Square (fuelW Fsq) [elemV o, elemV (enc a)]
       [elemV (enc (F.square a)), elemV (enc (F.square a))] :=
   wrap2_computes (by rw [← fn_24_eq]; exact hw.h24) _ _ _ (hp.square o a ho)
 
 /-- **(*SM2Element).Opp** = `F.opp` -/
 theorem Opp_computes (hw : HasPointFns P) (hp : FiatPrims P G X F enc Fmul Fsq Fadd Fsub Fopp Fone)
-    (o : List Nat) (ho : o.length = 4) (a : α) :
+    (o : List Nat) (ho : Out4 o) (a : α) :
     Computes P G X f_fiat_SM2Element_Opp (fuelW Fopp) [elemV o, elemV (enc a)]
       [elemV (enc (F.opp a)), elemV (enc (F.opp a))] :=
   wrap2_computes (by rw [← fn_20_eq]; exact hw.h20) _ _ _ (hp.opp o a ho)
 
 /-- **(*SM2Element).One** = `F.setOne` -/
 theorem One_computes (hw : HasPointFns P) (hp : FiatPrims P G X F enc Fmul Fsq Fadd Fsub Fopp Fone)
-    (o : List Nat) (ho : o.length = 4) :
+    (o : List Nat) (ho : Out4 o) :
     Computes P G X f_fiat_SM2Element_One (fuelW Fone) [elemV o] [elemV (enc F.setOne), elemV (enc F.setOne)] :=
   wrap1_computes (by rw [← fn_13_eq]; exact hw.h13) _ _ (hp.one o ho)
 
@@ -621,7 +629,7 @@ theorem NewSM2Point_computes (hw : HasPointFns P) (hp : FiatPrims P G X C.F enc 
   let e0 : Env := Env.ofList []
   let e1 := (e0.set 0 (elemV (enc C.F.setOne))).set 1 (elemV (enc C.F.setOne))
   have c1 : EvIn P G X (fuelW Fone + 1) e0 (.call [0, 1] 13 [mkE]) e1 .norm := by
-    refine (One_computes hw hp [0, 0, 0, 0] rfl).call ?_ rfl
+    refine (One_computes hw hp [0, 0, 0, 0] out4_zero).call ?_ rfl
     simp only [evalVs_cons, evalVs_nil, evalV_mkE]
   have sr : evalVs G e1 [(.cat (.mk (.lit 1) mkE) (.cat (.mk (.lit 1) (.var 1)) (.mk (.lit 1) mkE)))]
       = some [ptV enc (Model.Point.infinity C)] := by
@@ -636,12 +644,12 @@ theorem NewSM2Point_computes (hw : HasPointFns P) (hp : FiatPrims P G X C.F enc 
 theorem NewFromXY_computes (hw : HasPointFns P) (hp : FiatPrims P G X C.F enc Fmul Fsq Fadd Fsub Fopp Fone)
     (x y : List Nat) (hx : x.length = 4) (hy : y.length = 4) (hrx : enc (C.F.ofRaw x) = x) (hry : enc (C.F.ofRaw y) = y) :
     Computes P G X f_internal_NewFromXY (fuelW Fone + 20) [limbsV x, limbsV y] [ptV enc (Model.Point.fromXY C x y)] := by
-  have := NewFromXY_raw (P := P) (G := G) (X := X) hw x y (enc C.F.setOne) hx hy (One_computes hw hp [0, 0, 0, 0] rfl)
+  have := NewFromXY_raw (P := P) (G := G) (X := X) hw x y (enc C.F.setOne) hx hy (One_computes hw hp [0, 0, 0, 0] out4_zero)
   simpa only [ptV, Model.Point.fromXY, hrx, hry] using this
 
-/-- **(*SM2Point).Negate** = `Model.Point.negate`; the receiver holds any point of 4-limb coordinates -/
+/-- **(*SM2Point).Negate** = `Model.Point.negate`; the receiver holds any point whose `y` limbs are `Out4` -/
 theorem Negate_computes (hw : HasPointFns P) (hp : FiatPrims P G X C.F enc Fmul Fsq Fadd Fsub Fopp Fone)
-    (qa qb qc : List Nat) (hqb : qb.length = 4) (p : Model.Point.Pt α) :
+    (qa qb qc : List Nat) (hqb : Out4 qb) (p : Model.Point.Pt α) :
     Computes P G X f_internal_SM2Point_Negate (fuelW Fopp + 22) [ptRawV qa qb qc, ptV enc p]
       [ptV enc (Model.Point.negate C p), ptV enc (Model.Point.negate C p)] :=
   Negate_raw hw qa qb qc (enc p.x) (enc p.y) (enc p.z) _ (Opp_computes hw hp qb hqb p.y)
@@ -788,11 +796,11 @@ structure SInv (G : Nat → Val) (reg : String → Loc) (enc : α → List Nat) 
   frame : ∀ x, x < np → env x = env0 x
 
 /-- HYPOTHESES of the generic lemma: the wrapper `wr k` of each operation computes it on the encodings (receiver:
-    any four limbs), with fuel `fu k` -/
+    any four limbs below 2^64), with fuel `fu k` -/
 structure OpsOk (P : Prog) (G : Nat → Val) (X : Oracle) (ops : Model.SLP.Ops α) (enc : α → List Nat)
     (wr fu : Model.SLP.OpK → Nat) : Prop where
-  enc_len : ∀ e, (enc e).length = 4
-  op : ∀ (k : Model.SLP.OpK) (o : List Nat) (a b : α), o.length = 4 →
+  enc_out4 : ∀ e, Out4 (enc e)
+  op : ∀ (k : Model.SLP.OpK) (o : List Nat) (a b : α), Out4 o →
     Computes P G X (wr k) (fu k) (elemV o :: opArgVals k (elemV (enc a)) (elemV (enc b)))
       [elemV (enc (opVal ops k a b)), elemV (enc (opVal ops k a b))]
 
@@ -857,7 +865,7 @@ theorem slp_step (hops : OpsOk P G X ops enc wr fu) {env0 env : Env} {senv : Mod
     have hB : evalV G env (reg i.b).expr = some (elemV (enc y)) := by
       rw [← hy]; exact hinv.regs i.b (by simpa using hlb)
     generalize hR : elemV (enc (opVal ops i.op x y)) = R
-    have hcomp := hops.op i.op [0, 0, 0, 0] x y rfl
+    have hcomp := hops.op i.op [0, 0, 0, 0] x y out4_zero
     rw [hR] at hcomp
     have c1 : EvIn P G X (fu i.op + 1) env (.call [sc, t] (wr i.op) (mkE :: opArgs reg i)) ((env.set sc R).set t R) .norm :=
       hcomp.call (evalVs_opArgs (evalV_mkE _) hA hB) rfl
@@ -891,7 +899,7 @@ theorem slp_step (hops : OpsOk P G X ops enc wr fu) {env0 env : Env} {senv : Mod
       rw [hd] at this
       exact this
     generalize hR : elemV (enc (opVal ops i.op x y)) = R
-    have hcomp := hops.op i.op (enc (Model.SLP.Env.get ops.zero senv i.dst)) x y (hops.enc_len _)
+    have hcomp := hops.op i.op (enc (Model.SLP.Env.get ops.zero senv i.dst)) x y (hops.enc_out4 _)
     rw [hR] at hcomp
     have c1 : EvIn P G X (fu i.op + 1) env (.call [d, sc] (wr i.op) (.var d :: opArgs reg i)) ((env.set d R).set sc R) .norm :=
       hcomp.call (evalVs_opArgs hD hA hB) rfl
@@ -949,7 +957,7 @@ def fuOf (Fmul Fadd Fsub Fsq : Nat) : Model.SLP.OpK → Nat
 theorem opsOk_of_prims {α : Type} {P : Prog} {G : Nat → Val} {X : Oracle} {F : Model.Field.FieldOps α} {enc : α → List Nat}
     {Fmul Fsq Fadd Fsub Fopp Fone : Nat} (hw : HasPointFns P) (hp : FiatPrims P G X F enc Fmul Fsq Fadd Fsub Fopp Fone) :
     OpsOk P G X (Model.Point.slpOps F) enc wrOf (fuOf Fmul Fadd Fsub Fsq) := by
-  refine ⟨hp.enc_len, ?_⟩
+  refine ⟨hp.enc_out4, ?_⟩
   intro k o a b ho
   cases k
   · exact Mul_computes hw hp o ho a b
@@ -1185,32 +1193,32 @@ variable {α : Type} {G : Nat → Val} {X : Oracle} {enc : α → List Nat} {C :
 /-- global 6 of the generated program is `internal.sm2B` -/
 theorem sm2B_global : globalNames[6]? = some "internal.sm2B" := rfl
 
-theorem ir_Mul {F : Model.Field.FieldOps α} (hp : FiatPrims prog G X F enc Fmul Fsq Fadd Fsub Fopp Fone) (o : List Nat) (ho : o.length = 4) (a b : α) :
+theorem ir_Mul {F : Model.Field.FieldOps α} (hp : FiatPrims prog G X F enc Fmul Fsq Fadd Fsub Fopp Fone) (o : List Nat) (ho : Out4 o) (a b : α) :
     ∀ f, fuelW Fmul ≤ f → runV prog G X f f_fiat_SM2Element_Mul [elemV o, elemV (enc a), elemV (enc b)]
       = .ret [elemV (enc (F.mul a b)), elemV (enc (F.mul a b))] :=
   (Mul_computes prog_hasPointFns hp o ho a b).runV
 
-theorem ir_Square {F : Model.Field.FieldOps α} (hp : FiatPrims prog G X F enc Fmul Fsq Fadd Fsub Fopp Fone) (o : List Nat) (ho : o.length = 4) (a : α) :
+theorem ir_Square {F : Model.Field.FieldOps α} (hp : FiatPrims prog G X F enc Fmul Fsq Fadd Fsub Fopp Fone) (o : List Nat) (ho : Out4 o) (a : α) :
     ∀ f, fuelW Fsq ≤ f → runV prog G X f f_fiat_SM2Element_Square [elemV o, elemV (enc a)]
       = .ret [elemV (enc (F.square a)), elemV (enc (F.square a))] :=
   (Square_computes prog_hasPointFns hp o ho a).runV
 
-theorem ir_Add {F : Model.Field.FieldOps α} (hp : FiatPrims prog G X F enc Fmul Fsq Fadd Fsub Fopp Fone) (o : List Nat) (ho : o.length = 4) (a b : α) :
+theorem ir_Add {F : Model.Field.FieldOps α} (hp : FiatPrims prog G X F enc Fmul Fsq Fadd Fsub Fopp Fone) (o : List Nat) (ho : Out4 o) (a b : α) :
     ∀ f, fuelW Fadd ≤ f → runV prog G X f f_fiat_SM2Element_Add [elemV o, elemV (enc a), elemV (enc b)]
       = .ret [elemV (enc (F.add a b)), elemV (enc (F.add a b))] :=
   (Add_computes prog_hasPointFns hp o ho a b).runV
 
-theorem ir_Sub {F : Model.Field.FieldOps α} (hp : FiatPrims prog G X F enc Fmul Fsq Fadd Fsub Fopp Fone) (o : List Nat) (ho : o.length = 4) (a b : α) :
+theorem ir_Sub {F : Model.Field.FieldOps α} (hp : FiatPrims prog G X F enc Fmul Fsq Fadd Fsub Fopp Fone) (o : List Nat) (ho : Out4 o) (a b : α) :
     ∀ f, fuelW Fsub ≤ f → runV prog G X f f_fiat_SM2Element_Sub [elemV o, elemV (enc a), elemV (enc b)]
       = .ret [elemV (enc (F.sub a b)), elemV (enc (F.sub a b))] :=
   (Sub_computes prog_hasPointFns hp o ho a b).runV
 
-theorem ir_Opp {F : Model.Field.FieldOps α} (hp : FiatPrims prog G X F enc Fmul Fsq Fadd Fsub Fopp Fone) (o : List Nat) (ho : o.length = 4) (a : α) :
+theorem ir_Opp {F : Model.Field.FieldOps α} (hp : FiatPrims prog G X F enc Fmul Fsq Fadd Fsub Fopp Fone) (o : List Nat) (ho : Out4 o) (a : α) :
     ∀ f, fuelW Fopp ≤ f → runV prog G X f f_fiat_SM2Element_Opp [elemV o, elemV (enc a)]
       = .ret [elemV (enc (F.opp a)), elemV (enc (F.opp a))] :=
   (Opp_computes prog_hasPointFns hp o ho a).runV
 
-theorem ir_One {F : Model.Field.FieldOps α} (hp : FiatPrims prog G X F enc Fmul Fsq Fadd Fsub Fopp Fone) (o : List Nat) (ho : o.length = 4) :
+theorem ir_One {F : Model.Field.FieldOps α} (hp : FiatPrims prog G X F enc Fmul Fsq Fadd Fsub Fopp Fone) (o : List Nat) (ho : Out4 o) :
     ∀ f, fuelW Fone ≤ f → runV prog G X f f_fiat_SM2Element_One [elemV o]
       = .ret [elemV (enc F.setOne), elemV (enc F.setOne)] :=
   (One_computes prog_hasPointFns hp o ho).runV
@@ -1254,7 +1262,7 @@ theorem ir_PointSet (qa qb qc : List Nat) (q : Model.Point.Pt α) :
   (PointSet_computes prog_hasPointFns qa qb qc (enc q.x) (enc q.y) (enc q.z)).runV
 
 theorem ir_Negate (hp : FiatPrims prog G X C.F enc Fmul Fsq Fadd Fsub Fopp Fone)
-    (qa qb qc : List Nat) (hqb : qb.length = 4) (p : Model.Point.Pt α) :
+    (qa qb qc : List Nat) (hqb : Out4 qb) (p : Model.Point.Pt α) :
     ∀ f, fuelW Fopp + 22 ≤ f → runV prog G X f f_internal_SM2Point_Negate [ptRawV qa qb qc, ptV enc p]
       = .ret [ptV enc (Model.Point.negate C p), ptV enc (Model.Point.negate C p)] :=
   (Negate_computes prog_hasPointFns hp qa qb qc hqb p).runV
